@@ -403,6 +403,30 @@ impl<K: Key> Sut for Bt<K> {
                 return Err(Fail::new("unique:two-owners", format!("key {}: {v:?}", k.show())));
             }
         }
+        // full scans in both directions (ordered traversal == model order)
+        let full = [
+            Spec::Ge(probes[0].clone()),
+            Spec::Le(probes[probes.len() - 1].clone()),
+            Spec::Not(Box::new(Spec::Include(vec![]))),
+        ];
+        for spec in &full {
+            check_spec(idx, model, spec, false, evals)?;
+        }
+        // one bounded page from a cursor (the complete cursor x limit matrix is in the deep battery)
+        if let Some(first) = mkeys.first() {
+            *evals += 1;
+            let got = idx.keys(Some(first.clone()), Some(1));
+            let want: Vec<K> = mkeys.iter().skip(1).take(1).cloned().collect();
+            if got != want {
+                return Err(Fail::new("keys:cursor-limit", format!("keys(first, 1): got {got:?}, model {want:?}")));
+            }
+        }
+        Ok(())
+    }
+
+    fn deep_battery(idx: &Self::Index, _cfg: &BtCfg, model: &Model<K>, depth: usize, evals: &mut u64) -> Result<(), Fail> {
+        let probes = K::probes();
+        let mkeys: Vec<K> = model.keys().cloned().collect();
         // keys(cursor, limit): every cursor (incl. absent ones) x every limit
         let mut cursors: Vec<Option<K>> = vec![None];
         cursors.extend(probes.iter().cloned().map(Some));
@@ -436,19 +460,7 @@ impl<K: Key> Sut for Bt<K> {
                 ));
             }
         }
-        // full scans in both directions (ordered traversal == model order)
-        let full = [
-            Spec::Ge(probes[0].clone()),
-            Spec::Le(probes[probes.len() - 1].clone()),
-            Spec::Not(Box::new(Spec::Include(vec![]))),
-        ];
-        for spec in &full {
-            check_spec(idx, model, spec, false, evals)?;
-        }
-        K::extra_checks(idx, model, evals)
-    }
-
-    fn deep_battery(idx: &Self::Index, _cfg: &BtCfg, model: &Model<K>, depth: usize, evals: &mut u64) -> Result<(), Fail> {
+        K::extra_checks(idx, model, evals)?;
         for spec in trees::<K>(depth) {
             check_spec(idx, model, &spec, true, evals)?;
         }
@@ -811,6 +823,25 @@ pub fn alphabet(ids: u8, arrays: bool, updates: bool) -> Vec<HOp<BtOp>> {
             }
         }
     }
+    a
+}
+
+/// Focused alphabet: grow and shrink the posting of the long key (plus one
+/// small key sharing its bucket) so that an EXISTING posting overflows its
+/// bucket and migrates; small enough to reach depth 8 in the quick tier.
+pub fn alphabet_growth() -> Vec<HOp<BtOp>> {
+    let mut a = Vec::new();
+    for i in 0..3u8 {
+        a.push(HOp::Do(BtOp::Insert(i, 3)));
+    }
+    for i in 0..3u8 {
+        a.push(HOp::Do(BtOp::Remove(i, 3)));
+    }
+    a.push(HOp::Flush);
+    a.push(HOp::FlushLoad);
+    a.push(HOp::Compact);
+    a.push(HOp::Do(BtOp::Insert(0, 0)));
+    a.push(HOp::Do(BtOp::Remove(0, 0)));
     a
 }
 
